@@ -314,3 +314,45 @@ package dmap
 //@   ensures #too_few_answers [C05] internal: len(versions) < dm.s.config.ReadQuorum ==> result.1 == ErrReadQuorum
 //@   ensures #too_few_copies [C05] internal: len(versions) >= dm.s.config.ReadQuorum && len(sorted) > 0 && len(sorted) < dm.s.config.ReadQuorum ==> result.1 == ErrReadQuorum
 //@   ensures #absent_everywhere [C05] internal: len(versions) >= dm.s.config.ReadQuorum && len(sorted) == 0 ==> result.1 == ErrKeyNotFound
+
+// ---------------------------------------------------------------------------------------------------
+// C15: the option set of a write survives forwarding and decoding.
+// Forwarding (non-owner member -> owner): an Expire travels as DM.PEXPIRE, everything else as DM.PUT carrying
+// the condition (NX wins over XX, as in the local path's checks only one can be sent) and the first expiry form.
+//@ func (dm *DMap) writePutCommand(e *env) (*redis.StatusCmd, error)
+//@   props C15 C09
+//@   flag termination
+//@   requires #env: dm != nil && e != nil && e.putConfig != nil && dm.s != nil
+//@   requires #durations: 0 <= e.putConfig.PX && 0 <= e.putConfig.PXAT
+//@   ensures #ok: result.1 == nil && result.0 != nil
+//@   ensures #expire_is_not_a_put [C15 C09]: result.0.kind == ite(e.putConfig.OnlyUpdateTTL, "dm.pexpire", "dm.put")
+//@   ensures #condition [C15] internal: cmd.NX == e.putConfig.HasNX && cmd.XX == (e.putConfig.HasXX && !e.putConfig.HasNX)
+//@   ensures #expiry_px [C15] internal: cmd.PX == ite(!e.putConfig.HasEX && e.putConfig.HasPX, e.putConfig.PX / 1000000, 0)
+//@   ensures #expiry_pxat [C15] internal: cmd.PXAT == ite(!e.putConfig.HasEX && !e.putConfig.HasPX && !e.putConfig.HasEXAT && e.putConfig.HasPXAT, e.putConfig.PXAT / 1000000, 0)
+//@   ensures #expiry_ex [C15] internal: (cmd.EX != 0) ==> e.putConfig.HasEX
+//@   ensures #expiry_exat [C15] internal: (cmd.EXAT != 0) ==> !e.putConfig.HasEX && !e.putConfig.HasPX && e.putConfig.HasEXAT
+//@   ensures #payload [C15] internal: cmd.DMap == e.dmap && cmd.Key == e.key && cmd.Value == e.value
+//@   modifies nothing
+
+//@ func (dm *DMap) put(e *env) error
+//@   props C15
+//@   trusted
+//@   flag clock
+//@   modifies e.hkey, e.fragment, e.timeout, EvictedTotal.counter, EntriesTotal.counter, every(e.fragment.storage.has), every(e.fragment.storage.key),
+//@            every(e.fragment.storage.val), every(e.fragment.storage.ttl), every(e.fragment.storage.ts), every(e.fragment.storage.la),
+//@            every(e.fragment.storage.count), every(e.fragment.storage.inuse)
+
+// Decoding on the owner: every option of the parsed command reaches the PutConfig, in every combination
+// (a condition together with an expiry form in particular).
+//@ func (s *Service) putCommandHandler(conn redcon.Conn, cmd redcon.Command)
+//@   props C15 C16 C09
+//@   flag termination
+//@   flag wired 2
+//@   requires #args: len(cmd.Args) >= 1
+//@   requires #parts: s.parts()
+//@   ensures #condition [C15] internal: pc.HasNX == putCmd.NX && pc.HasXX == (putCmd.XX && !putCmd.NX) && !pc.OnlyUpdateTTL
+//@   ensures #expiry_form [C15 C09] internal: pc.HasEX == (putCmd.EX != 0) && pc.HasPX == (putCmd.EX == 0 && putCmd.PX != 0) &&
+//@                pc.HasEXAT == (putCmd.EX == 0 && putCmd.PX == 0 && putCmd.EXAT != 0) &&
+//@                pc.HasPXAT == (putCmd.EX == 0 && putCmd.PX == 0 && putCmd.EXAT == 0 && putCmd.PXAT != 0)
+//@   ensures #expiry_ms [C15 C09] internal: (pc.HasPX ==> pc.PX == int64(putCmd.PX * 1000000)) && (pc.HasPXAT ==> pc.PXAT == int64(putCmd.PXAT * 1000000))
+//@   ensures #payload [C15] internal: e.dmap == putCmd.DMap && e.key == putCmd.Key && e.value == putCmd.Value && e.putConfig != nil
